@@ -41,7 +41,7 @@ import (
 const initRev = 1000
 
 type Req struct {
-	Kind  string // create | update | delete | get | list | compact | count | stream | restart (driver step, invisible to clients)
+	Kind  string // create | update | delete | get | list | compact | count | stream | restart (the node restarts; rendered as QRestart, which the model proves invisible)
 	Key   []byte
 	Val   []byte
 	End   []byte
@@ -100,6 +100,7 @@ const (
 	engTiKVSplitKey = "tikv-split-key"
 	engTiKVSplitVer = "tikv-split-version"
 	engTiKVMany     = "tikv-many-regions" // one region per key of manyKeys: more regions than one PD page
+	engWrapTiKV     = "wrap-tikv"         // the metrics wrapper over the one-region TiKV mock
 	engTiKV2        = "tikv-2-clients"    // the adapter balances its calls over several clients, each with its own
 	engTiKV4        = "tikv-4-clients"    // timestamp oracle (200 in the production constructor), over one cluster
 	manyKeys        = 150
@@ -107,7 +108,7 @@ const (
 
 func manyKey(i int) []byte { return []byte(fmt.Sprintf("/registry/k%04d", i)) }
 
-var engines = []string{lib.EngMem, lib.EngBadger, lib.EngTiKV, lib.EngWrapMem, lib.EngWrapBadger, engTiKVSplitKey, engTiKVSplitVer, engTiKV2, engTiKV4}
+var engines = []string{lib.EngMem, lib.EngBadger, lib.EngTiKV, lib.EngWrapMem, lib.EngWrapBadger, engWrapTiKV, engTiKVSplitKey, engTiKVSplitVer, engTiKV2, engTiKV4}
 
 func newTiKVClients(n int) (storage.KvStorage, func(), error) {
 	rpcClient, cluster, pdClient, err := testutils.NewMockTiKV("", nil)
@@ -182,6 +183,12 @@ func openEngine(eng, scratch string) (storage.KvStorage, func(), error) {
 		return lib.NewTiKVSplit(cd.EncodeObjectKey([]byte("/registry/b"), 0))
 	case engTiKVSplitVer:
 		return lib.NewTiKVSplit(cd.EncodeObjectKey([]byte("/registry/a"), initRev+3))
+	case engWrapTiKV:
+		kv, cl, err := lib.NewEngine(lib.EngTiKV, scratch)
+		if err != nil {
+			return nil, nil, err
+		}
+		return imetrics.NewKvStorage(kv, &lib.NopMetrics{}), cl, nil
 	case engTiKV2:
 		return newTiKVClients(2)
 	case engTiKV4:
@@ -825,6 +832,8 @@ func coqReq(r Req) string {
 		return lib.App("QGet", lib.Bytes(r.Key), lib.N(r.Rev))
 	case "list":
 		return lib.App("QList", lib.Bytes(r.Key), lib.Bytes(r.End), lib.N(r.Rev), lib.N(uint64(r.Limit)))
+	case "restart":
+		return "QRestart"
 	case "count":
 		return lib.App("QCount", lib.Bytes(r.Key), lib.Bytes(r.End))
 	case "stream":
@@ -856,6 +865,8 @@ func coqResp(r Resp) string {
 		return "PPanic"
 	case "hang":
 		return "PHang"
+	case "restart":
+		return "PRestarted"
 	case "count":
 		return lib.App("PCount", lib.N(r.Hdr), lib.N(r.Count))
 	case "stream":
@@ -880,14 +891,12 @@ func coqResp(r Resp) string {
 
 // the region layout is not part of the adapter model: all three TiKV mocks are checked against the same model
 var coqEng = map[string]string{lib.EngMem: "EMem", lib.EngBadger: "EBadger", lib.EngTiKV: "ETiKV",
-	lib.EngWrapMem: "EWrapMem", lib.EngWrapBadger: "EWrapBadger", engTiKVSplitKey: "ETiKV", engTiKVSplitVer: "ETiKV", engTiKVMany: "ETiKV", engTiKV2: "ETiKV", engTiKV4: "ETiKV"}
+	lib.EngWrapMem: "EWrapMem", lib.EngWrapBadger: "EWrapBadger", engTiKVSplitKey: "ETiKV", engTiKVSplitVer: "ETiKV", engTiKVMany: "ETiKV", engTiKV2: "ETiKV", engTiKV4: "ETiKV", engWrapTiKV: "EWrapTiKV"}
 
 func coqRun(r Run) string {
 	var rs []string
 	for _, x := range r.Resps {
-		if x.Kind != "restart" {
-			rs = append(rs, coqResp(x))
-		}
+		rs = append(rs, coqResp(x))
 	}
 	es := make([]string, len(r.Events))
 	for i, e := range r.Events {
@@ -1036,6 +1045,7 @@ func main() {
 
 	w := lib.NewWriter(args, "C12", "c12", "From KB Require Import Model.C12Cases.", "c12_case", "c12_check", "c12_oracle", 12)
 	reqKinds := map[string]int{}
+	invalid := map[string]int{}
 	for c, e := range errs {
 		if e != nil {
 			w.Fail(lib.ImplFailure{CaseID: -1, What: fmt.Sprintf("chunk %d: %v", c, e)})
@@ -1049,11 +1059,16 @@ func main() {
 		var qs []string
 		jq := make([]string, len(h.Reqs))
 		for j, r := range h.Reqs {
-			if r.Kind != "restart" {
-				qs = append(qs, coqReq(r))
-			}
+			qs = append(qs, coqReq(r))
 			jq[j] = jsonReq(r)
 			reqKinds[r.Kind]++
+		}
+		// mirrors c12_validb (Model/C12Cases.v): an empty value written while a TiKV configuration takes part
+		for _, r := range h.Reqs {
+			if (r.Kind == "create" || r.Kind == "update") && len(r.Val) == 0 {
+				invalid["empty value written with TiKV among the engines (precondition of finding C12-F1)"]++
+				break
+			}
 		}
 		runs := make([]string, len(res.Runs))
 		jr := map[string]interface{}{}
@@ -1086,7 +1101,9 @@ func main() {
 			Outcomes: ocs})
 	}
 	w.Stats.Extra["request_kinds"] = reqKinds
-	if err := w.Finish("one case = one sequential history (8-30 requests) run on 9 engine configurations (memkv, Badger, TiKV mock with one region / a border between two keys / a border inside one key's versions / 2 clients / 4 clients, metrics wrapper over memkv and Badger) from revision 1000; keys from a pool of 6 (5 under the backend prefix), expectations steered to be correct / stale / zero / future; non-trivial = at least three different request outcomes; distinct = SHA-256 of the Coq case"); err != nil {
+	// histories outside c12_validb (the Coq side proves C12_oracle_sound_checked for all the others), by reason
+	w.Stats.Extra["invalid_cases"] = invalid
+	if err := w.Finish("one case = one sequential history (8-30 requests) run on 10 engine configurations (memkv, Badger, TiKV mock with one region / a border between two keys / a border inside one key's versions / 2 clients / 4 clients, metrics wrapper over memkv, Badger and TiKV) from revision 1000; keys from a pool of 6 (5 under the backend prefix), expectations steered to be correct / stale / zero / future; non-trivial = at least three different request outcomes; distinct = SHA-256 of the Coq case"); err != nil {
 		fmt.Fprintln(os.Stderr, err)
 		os.Exit(2)
 	}
